@@ -11,7 +11,7 @@
        Decode: iter.ReadVal(ammo); if iter.Error != nil { if readError != nil { return readError }; return iter.Error }
 
    core/provider/decoder.go  DecodeProvider.Run: the source is wrapped into the empty-pass guard (passGuard: a rewind
-   after a pass in which no ammo was decoded reports io.EOF) whenever it can be sought, whatever `passes` says, and read
+   after a pass in which no ammo was decoded reports io.EOF; its Read turns (n > 0, io.EOF) into (n, nil)) whenever it can be sought, whatever `passes` says, and read
    through lib/ioutil2 MultiPassReader (rewinds at io.EOF while passes = 0 or fewer than `passes` passes are done; a source
    that returned no data at all is not rewound); the loop `for ; limit <= 0 || ammoNum < limit; ammoNum++`:
    io.EOF -> "Ammo finished", return nil; another error -> "ammo #n decode failed"; otherwise the ammo is handed out.
@@ -27,13 +27,20 @@ Inductive jdres := JdNil | JdFail | JdOutOfFuel.
 
 Record jdvariant := {
   jv_record_with_data : bool;    (* the tracking reader notes the source's error also when it came with data *)
-  jv_guard : nat -> bool         (* passes -> the empty-pass guard is installed on a source that can be sought *)
+  jv_guard : nat -> bool;        (* passes -> the empty-pass guard is installed on a source that can be sought *)
+  jv_defers_eof : bool           (* passGuard.Read hands data that comes together with io.EOF out WITHOUT the io.EOF: the
+                                    end of the source is reported by the next read (repair PENDING-COMMIT) *)
 }.
-Definition jd_tree : jdvariant := {| jv_record_with_data := false; jv_guard := fun _ => true |}.
+Definition jd_tree : jdvariant := {| jv_record_with_data := false; jv_guard := fun _ => true; jv_defers_eof := true |}.
 Definition jd_current : jdvariant := jd_tree.
-(* the two plausible edits the model distinguishes *)
-Definition jd_notes_error_with_data : jdvariant := {| jv_record_with_data := true; jv_guard := fun _ => true |}.
-Definition jd_guard_for_several_passes : jdvariant := {| jv_record_with_data := false; jv_guard := fun p => 1 <? p |}.
+(* the plausible edits the model distinguishes *)
+Definition jd_notes_error_with_data : jdvariant :=
+  {| jv_record_with_data := true; jv_guard := fun _ => true; jv_defers_eof := true |}.
+Definition jd_guard_for_several_passes : jdvariant :=
+  {| jv_record_with_data := false; jv_guard := fun p => 1 <? p; jv_defers_eof := true |}.
+(* the tree before the repair: the guard had no Read of its own *)
+Definition jd_guard_without_read : jdvariant :=
+  {| jv_record_with_data := false; jv_guard := fun _ => true; jv_defers_eof := false |}.
 
 Definition jd_lim_reached (limit d : nat) : bool := (0 <? limit) && (limit <=? d).
 
@@ -67,7 +74,8 @@ Fixpoint jd_pass (v : jdvariant) (limit : nat) (eofwl : bool) (rem : list (list 
    pend: how many of the pass's ammo are handed out but not yet decoded at the moment the source reports its end -- 0 for
    a source that reports its end on a read of its own (files, strings.Reader: everything handed out before has been
    decoded when the next read is made); a for a source that hands ALL its data out in one read together with io.EOF
-   (MultiPassReader rewinds inside that very read, so the guard compares before any ammo of the pass is decoded). *)
+   (MultiPassReader would rewind inside that very read, the guard compare before any ammo of the pass is decoded --
+   unless the guard's own Read keeps the io.EOF back: jv_defers_eof). *)
 Fixpoint jd_passes (fuel : nat) (v : jdvariant) (passes limit a pend : nat) (nonempty : bool) (pc d db : nat) : jdres * nat :=
   match fuel with
   | 0 => (JdOutOfFuel, d)
@@ -76,7 +84,9 @@ Fixpoint jd_passes (fuel : nat) (v : jdvariant) (passes limit a pend : nat) (non
       else
         let d' := d + a in
         let pc' := S pc in
-        let seen := d' - pend in                                       (* what the guard reads in *decoded *)
+        (* what the guard reads in *decoded when it is asked to rewind: with its own Read the end of the source comes on a
+           read of its own, everything handed out before has been decoded *)
+        let seen := d' - (if jv_defers_eof v then 0 else pend) in
         if negb nonempty then (JdNil, d')                              (* a source without data is not rewound *)
         else if (passes =? 0) || (pc' <? passes) then
           if jv_guard v passes && (seen =? db) then (JdNil, d')        (* "nothing decoded in this pass": no rewind *)
